@@ -1017,6 +1017,7 @@ impl StoreWorkload {
         };
         let n = match focus {
             "C06" => rng.range(1, max_n),
+            "C13" if rng.chance(10) => 1,
             _ => rng.range(2, max_n),
         };
         let mut o = GenomeOpts::swarm(&mut rng, k);
